@@ -12,6 +12,7 @@ HERE = os.path.dirname(os.path.dirname(os.path.abspath(__file__)))
 args = sys.argv[1:]
 tier = "quick"
 full = False
+outname = None
 names = []
 while args:
     a = args.pop(0)
@@ -19,11 +20,20 @@ while args:
         tier = args.pop(0)
     elif a == "--full":
         full = True
+    elif a == "--out":
+        outname = args.pop(0)
+    elif a == "--part":
+        part = args.pop(0)          # "i/n": the i-th of n interleaved parts of the (sorted) list of all changes
+        names = "part:" + part
     else:
         names.append(a)
 root = os.path.join(HERE, "seeded")
-if not names:
+part = names[5:] if isinstance(names, str) else None
+if part or not names:
     names = sorted(d for d in os.listdir(root) if os.path.isdir(os.path.join(root, d)) and not d.startswith("_"))
+if part:
+    pi, pn = map(int, part.split("/"))
+    names = names[pi::pn]
 results = []
 for name in names:
     d = os.path.join(root, name)
@@ -68,7 +78,7 @@ for name in names:
         shutil.rmtree(wt, ignore_errors=True)
         shutil.rmtree(scratch, ignore_errors=True)
 if len(results) > 1:
-    out = os.path.join(root, "RESULTS-%s.json" % tier)
+    out = os.path.join(root, outname or ("RESULTS-%s.json" % tier))
     old = json.load(open(out)) if os.path.exists(out) else {}
     repo_head = subprocess.check_output(["git", "-C", "/repo", "rev-parse", "--short", "HEAD"]).decode().strip()
     for r in results:
